@@ -68,6 +68,10 @@ fn base_tables() -> Vec<SafetyDesc> {
         SafetyDesc { to_env: 0.05, to_robot: 0.0, special: vec![], mode: 1 },
         SafetyDesc { to_env: 0.05, to_robot: 0.05, special: vec![((1, 3), 0.005), ((3, ENV_START_IDX), 0.01), ((J_TOOL, 2), 0.0)], mode: 1 },
         SafetyDesc { to_env: 0.0, to_robot: 0.0, special: vec![((ENV_START_IDX, 3), 0.08), ((5, J_BASE), 0.06), ((0, 4), 0.07)], mode: 1 },
+        // a default of NEVER_COLLIDES switches a whole class of pairs off, except the pairs an override names
+        SafetyDesc { to_env: NEVER_COLLIDES, to_robot: 0.02, special: vec![((3, ENV_START_IDX), 0.06), ((ENV_START_IDX, J_TOOL), 0.0), ((5, ENV_START_IDX), 0.03)], mode: 1 },
+        SafetyDesc { to_env: 0.02, to_robot: NEVER_COLLIDES, special: vec![((1, 3), 0.05), ((4, 0), 0.0), ((J_TOOL, 2), 0.04), ((J_BASE, 3), 0.03)], mode: 1 },
+        SafetyDesc { to_env: NEVER_COLLIDES, to_robot: NEVER_COLLIDES, special: vec![((2, ENV_START_IDX), 0.05), ((5, 1), 0.05)], mode: 1 },
     ]
 }
 
